@@ -94,9 +94,39 @@ func H_trunc() {
 		vSetVersion(b, "0.5.10")
 	case 2:
 		vSetVersion(b, "0.5.11")
+	case 3, 4: // three-section legacy stream from the validated writer model
+		t := vLegacyBuild([]string{"ab", "ac", "b"}, false)
+		hi := make([]uint16, len(t.childBM))
+		ch, stp, lv := vLegacyArrays(t, layout-3, hi, []uint16{1, 2, 3}, encode.U16{})
+		b = vLegacyStream([]string{"1.0.0", "0.5.9"}[layout-3], ch, stp, lv)
 	}
-	cut := vParam("cut")
-	if cut >= len(b) {
+	// the cut is given relative to a section: sec = section number, pos >= 0 = offset from the
+	// section start (0..31 inside its header, 32.. inside its body), pos < 0 = counted back from
+	// the section end (-1: the section is complete, the next one missing; -2: last body byte missing).
+	// Body sizes differ between the codec stub and real protobuf; section-relative cuts mean the same
+	// place in both.
+	sec, pos := vParam("sec"), vParam("cut")
+	start := 0
+	end := 0
+	for s := 0; ; s++ {
+		if start+32 > len(b) {
+			vAssume(false)
+		}
+		body := 0
+		for i := 7; i >= 0; i-- {
+			body = body<<8 | int(b[start+24+i])
+		}
+		end = start + 32 + body
+		if s == sec {
+			break
+		}
+		start = end
+	}
+	cut := start + pos
+	if pos < 0 {
+		cut = end + pos + 1
+	}
+	if cut < start || cut > end || cut >= len(b) {
 		vAssume(false)
 	}
 	st, _ := NewSlimTrie(encode.U16{}, nil, nil)
@@ -106,7 +136,8 @@ func H_trunc() {
 	vAssert(panicked || err != nil, "C07.cut-rejected")
 	vAssert(vCodecUnrecognised() == 0, "C07.no-partial-parse")
 	vAssert(panicked || st.GetID("ab") == -1, "C07.empty-after")
-	vObserve("cut", cut)
+	vObserve("sec", sec)
+	vObserve("pos", pos)
 	vReach("end")
 }
 
